@@ -262,3 +262,112 @@ pub fn cmd_fuzz(args: &[String]) -> i32 {
     println!("{}", json!({"texts": n}));
     0
 }
+
+// ------------------------------------------------------------------ numerals at the edge of the integer range (MC_C16R)
+/// decimal digits of a magnitude given as bits (MSB first): repeated division by 10 on the bit vector
+fn decimal_of(bits: &[u8]) -> String {
+    let mut cur: Vec<u8> = bits.to_vec();
+    let mut digits: Vec<u8> = vec![];
+    loop {
+        let mut rem = 0u32;
+        let mut q: Vec<u8> = Vec::with_capacity(cur.len());
+        for b in cur.iter() {
+            rem = rem * 2 + *b as u32;
+            if rem >= 10 { q.push(1); rem -= 10; } else { q.push(0); }
+        }
+        digits.push(rem as u8);
+        let first = q.iter().position(|x| *x == 1);
+        match first { None => break, Some(i) => cur = q[i..].to_vec() }
+    }
+    digits.iter().rev().map(|d| (b'0' + d) as char).collect()
+}
+
+fn hex_of(bits: &[u8]) -> String {
+    let pad = (4 - bits.len() % 4) % 4;
+    let mut all = vec![0u8; pad];
+    all.extend_from_slice(bits);
+    all.chunks(4).map(|g| std::char::from_digit(g.iter().fold(0u32, |a, b| a * 2 + *b as u32), 16).unwrap()).collect()
+}
+
+fn dress(digits: &str, how: &str) -> String {
+    match how {
+        "us" => {
+            let mut s = String::new();
+            for (i, ch) in digits.chars().enumerate() {
+                if i > 0 && i % 3 == 0 { s.push('_'); }
+                s.push(ch);
+            }
+            s
+        }
+        "zeros" => format!("000{}", digits),
+        _ => digits.to_string(),
+    }
+}
+
+/// xv lexrange-replay <tlc-output> <mismatches>
+pub fn cmd_range_replay(args: &[String]) -> i32 {
+    let mut n = 0usize;
+    let mut bad = 0usize;
+    let mut accepted = 0usize;
+    let mut out = String::new();
+    for_each_replay_line(&args[0], |c| {
+        n += 1;
+        let bits: Vec<u8> = c["mag"].as_array().map(|a| a.iter().map(|x| x.as_u64().unwrap_or(0) as u8).collect()).unwrap_or_default();
+        let radix = c["radix"].as_str().unwrap_or("dec");
+        let sign = c["sign"].as_str().unwrap_or("");
+        let how = c["dress"].as_str().unwrap_or("plain");
+        let body = match radix {
+            "bin" => format!("0b{}", dress(&bits.iter().map(|b| (b'0' + b) as char).collect::<String>(), how)),
+            "hex" => format!("0x{}", dress(&hex_of(&bits), how)),
+            "lzhex" => format!("0{}", dress(&hex_of(&bits), how)),
+            // a decimal numeral cannot start with 0 (that is the leading-zero hexadecimal notation)
+            _ => dress(&decimal_of(&bits), if how == "zeros" { "plain" } else { how }),
+        };
+        let text = format!("{}{}", sign, body);
+        let accept = c["accept"] == true;
+        // the value, when it fits: magnitude as u128 (at most 128 bits here), negated for '-'
+        let want: Option<i128> = if accept {
+            let mag = bits.iter().fold(0u128, |a, b| (a << 1) | *b as u128);
+            Some(if sign == "-" { (mag as i128).wrapping_neg() } else { mag as i128 })
+        } else { None };
+        if accept { accepted += 1; }
+        let mut why: Vec<String> = vec![];
+        let r = guarded(|| {
+            let mut lex = Lex::new(Xstr::from(text.as_str()));
+            let first = lex.next();
+            let covered = lex.last_substr().to_string();
+            (first, covered)
+        });
+        match r {
+            Outcome::Panic(m) => why.push(format!("panic: {}", m)),
+            Outcome::Done((first, covered)) => match (&first, want) {
+                (Ok(Tok::Literal(Cell::Int(v))), Some(w)) => {
+                    if *v != w { why.push(format!("reads as {}, the numeral denotes {}", v, w)); }
+                    if covered != text { why.push(format!("the token covers {:?} of {:?}", covered, text)); }
+                }
+                (Ok(Tok::Literal(Cell::Int(v))), None) => why.push(format!("reads as {}, but the numeral denotes a value outside the 128-bit range: it must be rejected", v)),
+                (Err(_), None) => {}
+                (other, Some(w)) => why.push(format!("got {:?}, the numeral denotes {}", other, w)),
+                (other, None) => why.push(format!("got {:?}; a numeral outside the range must be rejected", other)),
+            },
+        }
+        // through the whole interpreter as well: the value on the stack, or an error - never a different number
+        let mut xs = fresh();
+        match guarded(|| xs.eval(&text)) {
+            Outcome::Panic(m) => why.push(format!("eval panics: {}", m)),
+            Outcome::Done(Ok(())) => {
+                let got = xs.get_data(0).and_then(|c| c.to_xint().ok());
+                if got != want || want.is_none() { why.push(format!("eval leaves {:?}, expected {:?}", got, want)); }
+            }
+            Outcome::Done(Err(_)) => { if want.is_some() { why.push("eval rejects a numeral inside the range".into()); } }
+        }
+        if !why.is_empty() {
+            bad += 1;
+            out.push_str(&json!({"text": text, "case": c, "why": why}).to_string());
+            out.push('\n');
+        }
+    });
+    std::fs::write(&args[1], out).unwrap();
+    println!("{}", json!({"numerals": n, "accepted": accepted, "mismatches": bad}));
+    0
+}
